@@ -138,16 +138,19 @@ Section FixedLibIncl.
      the store is untouched *)
   Lemma pii_ok b s lib : root_ok lib b = true ->
     exists s2 evs, process_initial_inclusive cfg b s = (s2, evs, true) /\
-      db s2 = db s /\ last_sent s2 = Some b /\ apply_all lib [] evs = Some [b].
+      db s2 = db s /\ last_sent s2 = Some b /\ apply_all lib [] evs = Some [b] /\
+      exists e1 l, evs = e1 :: l /\ elib e1 = cursor_lib s.
   Proof.
     intros Hroot. unfold process_initial_inclusive. rewrite Hnew, (call_ok cfg Hnofail). cbv beta iota zeta.
     unfold process_irr_segment. destruct (f_irr (c_filter cfg)).
     - cbn [process_irr_loop]. rewrite (call_ok cfg Hnofail). cbv beta iota zeta. cbn [db last_sent last_lib_seen ncalls app].
       eexists. eexists. split; [reflexivity|]. cbn [db last_sent]. split; [reflexivity|]. split; [reflexivity|].
-      cbn [apply_all apply_ev estep eblk]. rewrite Hroot. reflexivity.
+      split; [cbn [apply_all apply_ev estep eblk]; rewrite Hroot; reflexivity|].
+      eexists. eexists. split; reflexivity.
     - cbv beta iota zeta. cbn [db last_sent last_lib_seen ncalls app].
       eexists. eexists. split; [reflexivity|]. cbn [db last_sent]. split; [reflexivity|]. split; [reflexivity|].
-      cbn [apply_all apply_ev estep eblk]. rewrite Hroot. reflexivity.
+      split; [cbn [apply_all apply_ev estep eblk]; rewrite Hroot; reflexivity|].
+      eexists. eexists. split; reflexivity.
   Qed.
 
   (* ---------------------------------------------------------------- storing a new block keeps the invariant *)
@@ -283,7 +286,7 @@ Section FixedLibIncl.
       assert (Hk : ~ In (bid b) (keys (store (db s)))) by (rewrite Hi3; apply Hlb; [exact Hi1 | reflexivity]).
       assert (Hf : find (bid b) (store (db s)) = None) by (apply find_none; exact Hk).
       rewrite (fk_step_initialG s b Hb Hf Hd Hini).
-      destruct (pii_ok b (with_db s (new_db (db s) b)) (ri r0)) as (s2 & evs & -> & Hdb & Hls2 & Happ).
+      destruct (pii_ok b (with_db s (new_db (db s) b)) (ri r0)) as (s2 & evs & -> & Hdb & Hls2 & Happ & _).
       { unfold root_ok. rewrite Hi3, N.eqb_refl. reflexivity. }
       exists s2, evs, [b]. split; [reflexivity|]. split; [exact Happ|].
       cbn [with_db db] in Hdb.
